@@ -2206,3 +2206,74 @@ def rule_l9(P, tables):
     if n_sw < 4:
         raise E5Error(f"L9: only {n_sw} branches in the read_dir loop (6 counted by hand)")
     return findings, obl, {"l9_loop_blocks": len(loop), "l9_branches": n_sw, "l9_deciders": len(seen)}
+
+
+def rule_g4(P):
+    """'Error-free parse trees are accepted or rejected by validation without panic': a NUMBER token is `-?[0-9]+` of any length,
+    so an accessor of the typed AST that does `text().parse().expect(..)` panics on `40000` unless something rejected the value
+    first - and validation is that something.  Rule: the typed-AST accessors that panic on a token's TEXT (a `str::parse` whose
+    Result is unwrapped/expected, directly or through another such accessor) are not called from the validation pass
+    (fea_rs::compile::validate), which must use the checked forms and report a diagnostic instead."""
+    from common import norm_fn
+    findings, obl = [], []
+    typed = {k: b for k, b in P.bodies.items() if k.startswith("fea_rs::token_tree::typed::") and "#promoted" not in k and not b.get("exp")}
+
+    def callees(b):
+        out = []
+        for blk in b["blocks"]:
+            t = blk["t"]
+            if t["t"] == "call" and not blk.get("cl"):
+                k = t["f"].get("k") or {}
+                out.append((k.get("res") or k.get("fn") or "", t["l"]))
+        return out
+    panicky = {}
+    for k, b in typed.items():
+        cs = [c for c, _ in callees(b)]
+        int_parse = any(blk["t"]["t"] == "call" and re.search(r"core::str::\{impl#\d+\}::parse$", (blk["t"]["f"].get("k") or {}).get("fn") or "") and
+                        not any(g in ("f64", "f32") for g in (blk["t"]["f"].get("k") or {}).get("ga", [])) for blk in b["blocks"])   # a lexed float always parses as f64
+        if int_parse and any(re.search(r"result::\{impl#\d+\}::(expect|unwrap)$", c) for c in cs):
+            panicky[k] = "parses the token text and unwraps"
+    if not panicky:
+        raise E5Error("G4: no text-parsing accessor that unwraps found in fea_rs::token_tree::typed (Number::parse_signed moved?)")
+    changed = True
+    while changed:
+        changed = False
+        for k, b in typed.items():
+            if k in panicky:
+                continue
+            for c, _ in callees(b):
+                if c in panicky:
+                    panicky[k] = f"calls {norm_fn(c).rsplit('::', 1)[-1]}"
+                    changed = True
+                    break
+    def stable(fn):
+        """Type::method[::{closure}] - impl block indices change whenever an impl is added above"""
+        root = fn.split("::{closure", 1)[0]
+        bb = P.bodies.get(root) or {}
+        ty = (bb.get("impl_self") or "").split("<")[0].rsplit("::", 1)[-1]
+        tail = re.sub(r"\{closure#\d+\}", "{closure}", fn.rsplit("}::", 1)[-1] if "{impl#" in fn else fn.rsplit("::", 1)[-1])
+        return f"{ty}::{tail}" if ty else norm_fn(fn)
+    n_val = n_other = 0
+    for k, b in sorted(P.bodies.items()):
+        if not k.startswith("fea_rs::") or "#promoted" in k or k in typed:
+            continue
+        in_validation = k.startswith("fea_rs::compile::validate::")
+        ordinal = defaultdict(int)
+        for c, line in callees(b):
+            if c not in panicky:
+                continue
+            if not in_validation:
+                n_other += 1
+                continue
+            n_val += 1
+            short = stable(c)
+            key = f"G4|{stable(k)}|{short}|{ordinal[short]}"
+            ordinal[short] += 1
+            obl.append({"rule": "G4", "inst": f"{norm_fn(k)} line {line}: validation calls {short}, which panics on an out-of-range number ({panicky[c]})", "ok": False})
+            findings.append({"rule": "G4", "key": key, "msg": f"{k} (validation) calls {c}, which {panicky[c]}: a NUMBER token of any length reaches it (e.g. 40000), so validation panics on an "
+                             f"error-free parse tree instead of reporting the value as out of range", "loc": P.site_loc(k, line), "detail": {}})
+    obl.append({"rule": "G4", "inst": f"{len(panicky)} typed-AST accessors panic on token text ({', '.join(sorted(stable(x) for x in panicky))}); "
+                                      f"{n_val} calls from validation, {n_other} from the compile pass (after validation; not in C13's scope)", "ok": True})
+    if n_other < 3:
+        raise E5Error(f"G4: only {n_other} compile-pass callers of the panicking accessors found (7 counted by hand)")
+    return findings, obl, {"g4_panicky_accessors": len(panicky), "g4_validation_calls": n_val, "g4_compile_calls": n_other}
